@@ -22,7 +22,7 @@ typedef ebpps_sketch<uint64_t> EB;
 
 const char* property_id() { return "C18"; }
 unsigned case_timeout_s() { return 300; }
-static const uint64_t NSTAT_QUICK = 13, NSTAT_THOROUGH = 23;
+static const uint64_t NSTAT_QUICK = 18, NSTAT_THOROUGH = 28;
 uint64_t num_cases(bool thorough) { return thorough ? NSTAT_THOROUGH + 150000 : NSTAT_QUICK + 14000; }
 void final_report() {}
 
@@ -444,13 +444,22 @@ static void explore_body(Rng& r, bool deep) {
 }
 
 // ---------------------------------------------------------------- inclusion-probability cells
-struct Cell { int n; int k; int kind; int merge; int k2; };   // merge: 0 none, 1 second half merged into first (lvalue), 2 first merged into second (rvalue)
+struct Cell { int n; int k; int kind; int merge; int k2; int table; };   // table: 0 = weights from the generator, else explicit list below
+static const double TABLES[4][8] = {
+  {0},
+  {1, 1, 0.5, 10},                         // c = 2.5, then everything is scaled to 0.25 of an item
+  {1, 1, 0.5, 10, 3, 2, 0.5, 200},         // collapse, rebuild a fractional c with a full item, collapse again
+  {0.3, 0.7, 1, 1, 0.4, 50, 1, 2},         // five small items with a partial one, a giant, then growth
+};   // merge: 0 none, 1 second half merged into first (lvalue), 2 first merged into second (rvalue)
 static const Cell CELLS[] = {
   // (cells 3, 8, 9 are in the c < k regime: c = sum(w)/max(w) is fractional and shrinks whenever a new maximum arrives)
   {40, 5, K_UNIFORM, 0, 0}, {60, 10, K_TWOLEVEL, 0, 0}, {30, 3, K_DYADIC, 0, 0}, {30, 60, K_UNIFORM, 0, 0},
   {48, 6, K_UNIFORM, 1, 9}, {60, 12, K_TWOLEVEL, 2, 7}, {24, 1, K_UNIFORM, 0, 0}, {80, 20, K_DECREASING, 0, 0},
   {36, 50, K_INCREASING, 0, 0}, {40, 50, K_UNIFORM, 1, 45},
   {3, 10, K_PATTERN, 0, 0} /* weights 1, 1, 0.5 -> c = 2.5 */, {8, 10, K_PATTERN, 0, 0} /* c = 7 */, {11, 20, K_PATTERN, 1, 25} /* c = 9.5 after merge */,
+  // collapse cells (explicit weight tables, >= 1e5 trials): a sample with full items plus a partial item is scaled
+  // below one item by an update that outweighs the whole stream so far ("no full items retained" branch)
+  {4, 10, K_PATTERN, 0, 0, 1}, {4, 3, K_PATTERN, 0, 0, 1}, {8, 10, K_PATTERN, 0, 0, 2}, {8, 20, K_PATTERN, 0, 0, 3}, {4, 2, K_PATTERN, 0, 0, 1},
   {64, 16, K_HEAVYTAIL, 0, 0}, {50, 5, K_EQUAL, 0, 0}, {45, 9, K_UNIFORM, 2, 4}, {30, 2, K_TWOLEVEL, 0, 0},
   {70, 10, K_UNIFORM, 1, 30}, {20, 30, K_GIANT, 0, 0}, {50, 8, K_GIANT, 0, 0}, {36, 4, K_INCREASING, 0, 0}, {40, 7, K_DYADIC, 1, 7},
   {50, 80, K_DYADIC, 2, 70},
@@ -459,14 +468,14 @@ static const Cell CELLS[] = {
 static void stat_cell(uint64_t idx, Rng& r) {
   const bool T = G().thorough();
   const Cell& c = CELLS[idx % (sizeof CELLS / sizeof CELLS[0])];
-  const uint64_t trials = T ? 50000 : 3000;
-  describe("inclusion cell " + std::to_string(idx) + " n=" + std::to_string(c.n) + " k=" + std::to_string(c.k) + " kind=" + kind_name(c.kind) + " merge=" + std::to_string(c.merge) + " k2=" + std::to_string(c.k2) + " trials=" + std::to_string(trials));
+  const uint64_t trials = c.table ? (T ? 300000 : 100000) : (T ? 50000 : 3000);
+  describe("inclusion cell " + std::to_string(idx) + " n=" + std::to_string(c.n) + " k=" + std::to_string(c.k) + " kind=" + kind_name(c.kind) + " merge=" + std::to_string(c.merge) + " k2=" + std::to_string(c.k2) + " table=" + std::to_string(c.table) + " trials=" + std::to_string(trials));
   Rng sr(0xC18C0000ULL + idx);
   WGen g; g.init(sr, c.kind, c.n);
   if (c.kind == K_HEAVYTAIL) g.p1 = 1.5;
   std::vector<double> w(c.n);
   long double total = 0; double wmax = 0;
-  for (int i = 0; i < c.n; ++i) { w[i] = g.next(sr, i); if (c.kind == K_INCREASING || c.kind == K_DECREASING) w[i] = 1.0 + (c.kind == K_INCREASING ? i : c.n - i); total += w[i]; wmax = std::max(wmax, w[i]); }
+  for (int i = 0; i < c.n; ++i) { w[i] = c.table ? TABLES[c.table][i] : g.next(sr, i); if (c.kind == K_INCREASING || c.kind == K_DECREASING) w[i] = 1.0 + (c.kind == K_INCREASING ? i : c.n - i); total += w[i]; wmax = std::max(wmax, w[i]); }
   const uint32_t keff = c.merge ? std::min(c.k, c.k2) : c.k;
   const double cexp = std::min<double>(keff, static_cast<double>(total / wmax));
   // two read-out paths of the same sketch, each its own random draw: [0] get_result(), [1] begin()..end()
@@ -528,6 +537,7 @@ static void stat_cell(uint64_t idx, Rng& r) {
     }
   }
   count(c.merge ? "inclusion_cells_merge" : "inclusion_cells_sketch");
+  if (c.table) { count("inclusion_cells_collapse_below_one_item"); count("inclusion_collapse_trials", trials); }
   count("inclusion_trials", trials);
   sig(mix64(0x18ce, idx));
   if (want_sample()) sample("{\"cell\":" + jstr(G().cur_desc) + ",\"c\":" + str(cexp) + ",\"mean_size\":" + str(ms) + ",\"worst_dev_in_se\":" + str(worst) + "}");
